@@ -114,6 +114,16 @@ def _key(post, m2):
         return sha(post['exact'])
     if _MODE == 'quotient':
         return sha([quotient_dump(post['exact']), _SYS.model_key(m2)])
+    if _MODE == 'medium':
+        # coarse key + the *sets* of values in the shared lookup tables (their row order is
+        # unobservable except through the order of wn.ilis(); lookups are by value)
+        ex = post['exact']
+        stat = {r[0]: r[1] for r in ex['ili_statuses']}
+        shared = {'ilis': sorted(([r[1], stat.get(r[2]), r[3], repr(r[4])] for r in ex['ilis']), key=repr),
+                  'relation_types': sorted(r[1] for r in ex['relation_types']),
+                  'lexfiles': sorted(r[1] for r in ex['lexfiles']),
+                  'ili_statuses': sorted(r[1] for r in ex['ili_statuses'])}
+        return sha([_SYS.coarse_key(post, m2), shared])
     return sha(_SYS.coarse_key(post, m2))
 
 
